@@ -108,8 +108,8 @@ func genStop(c *ctx) {
 		per := c.pick(10, 80)
 		for k := 0; k < per; k++ {
 			s := &sc{cfg: cfg, tops: tops, root: root}
-			s.who = []string{"client", "server"}[c.rng.Intn(2)]
-			s.del = s.who == "client" && c.rng.Intn(2) == 0
+			s.who = []string{"client", "server", "client-prompt"}[c.rng.Intn(3)]
+			s.del = s.who != "server" && c.rng.Intn(2) == 0
 			s.dir = c.rng.Intn(2)
 			if counts[s.dir] > 0 {
 				s.idx = c.rng.Intn(counts[s.dir] + 1)
@@ -129,7 +129,16 @@ func genStop(c *ctx) {
 			os.MkdirAll(filepath.Join(dest, "keep-dir"), 0755)
 			os.WriteFile(filepath.Join(dest, "keep-dir", "x"), []byte("x"), 0644)
 			// a colliding name: same base name as the first source
-			os.WriteFile(filepath.Join(dest, filepath.Base(s.tops[0])), []byte("old content of a colliding name"), 0644)
+			if s.cfg.directory && s.cfg.overwrite {
+				// -d -y onto an existing directory of that name which holds other content: the
+				// transfer merges into it; stop-and-delete may remove only what it created
+				old := filepath.Join(dest, filepath.Base(s.tops[0]))
+				os.MkdirAll(filepath.Join(old, "sub"), 0755)
+				os.WriteFile(filepath.Join(old, "keep.txt"), []byte("was here before"), 0644)
+				os.WriteFile(filepath.Join(old, "sub", "old.txt"), []byte("was here before too"), 0644)
+			} else {
+				os.WriteFile(filepath.Join(dest, filepath.Base(s.tops[0])), []byte("old content of a colliding name"), 0644)
+			}
 		}
 		before, _ := snapshotTree(dest)
 		cfg := s.cfg
@@ -144,9 +153,21 @@ func genStop(c *ctx) {
 				runMu.Unlock()
 				if r != nil {
 					stopAt = time.Now()
-					if s.who == "client" {
+					switch s.who {
+					case "client":
 						r.filter.StopTransferringFiles(s.del)
-					} else {
+					case "client-prompt":
+						// what a user does: Ctrl-C (pauses and asks), then picks a stop choice
+						go func() {
+							r.cliIn.Write([]byte{0x03})
+							time.Sleep(time.Duration(150+int(stopAt.UnixNano()%400)) * time.Millisecond)
+							if s.del {
+								r.cliIn.Write([]byte{'j'}) // second item: stop and delete
+								time.Sleep(30 * time.Millisecond)
+							}
+							r.cliIn.Write([]byte{'\r'})
+						}()
+					default:
 						r.cmd.Process.Signal(syscall.SIGINT)
 					}
 					return
@@ -194,7 +215,7 @@ func genStop(c *ctx) {
 		// pre-existing entries: untouched unless overwrite replaced that very name
 		for k, e := range before {
 			a, ok := after[k]
-			replaced := s.cfg.overwrite && k == filepath.Base(s.tops[0])
+			replaced := s.cfg.overwrite && !s.cfg.directory && k == filepath.Base(s.tops[0])
 			if replaced {
 				continue
 			}
@@ -287,7 +308,7 @@ func genHang(c *ctx) {
 		res      e2eResult
 	}
 	var cases []*hc
-	kinds := []string{"silence", "discard-one", "close-stdin", "source-shrinks", "source-unreadable", "dest-readonly"}
+	kinds := []string{"silence", "discard-one", "close-stdin", "source-shrinks", "source-unreadable", "dest-readonly", "silence-pause-resume"}
 	nb := c.pick(6, 16)
 	const timeout = 2
 	for b := 0; b < nb; b++ {
@@ -350,6 +371,23 @@ func genHang(c *ctx) {
 			}
 			switch h.kind {
 			case "silence":
+				return e2eAction{silence: true, drop: true}
+			case "silence-pause-resume":
+				// the peer falls silent; while a read is pending the user pauses and resumes
+				once.Do(func() {
+					go func() {
+						if r := getRun(); r != nil {
+							time.Sleep(300 * time.Millisecond)
+							r.cliIn.Write([]byte{0x03})
+							time.Sleep(200 * time.Millisecond)
+							r.cliIn.Write([]byte{'j'})
+							time.Sleep(30 * time.Millisecond)
+							r.cliIn.Write([]byte{'j'})
+							time.Sleep(30 * time.Millisecond)
+							r.cliIn.Write([]byte{'\r'})
+						}
+					}()
+				})
 				return e2eAction{silence: true, drop: true}
 			case "discard-one":
 				if i == idx {
